@@ -4,6 +4,7 @@ import (
 	"context"
 	"encoding/hex"
 	"fmt"
+	"math"
 
 	"github.com/alephium/wormhole-fork/node/pkg/common"
 	"github.com/alephium/wormhole-fork/node/pkg/db"
@@ -81,6 +82,15 @@ func decodeEmitterAddress(emitterAddress string) (*vaa.Address, error) {
 	return &addr, nil
 }
 
+// toChainID converts a chain id of a request, rejecting values that do not fit vaa.ChainID
+// (a plain conversion would fold e.g. 65538 onto chain 2).
+func toChainID(c publicrpcv1.ChainID) (vaa.ChainID, error) {
+	if c < 0 || c > math.MaxUint16 {
+		return 0, status.Error(codes.InvalidArgument, fmt.Sprintf("invalid chain id: %d", c))
+	}
+	return vaa.ChainID(c), nil
+}
+
 func (s *PublicrpcServer) GetSignedVAA(ctx context.Context, req *publicrpcv1.GetSignedVAARequest) (*publicrpcv1.GetSignedVAAResponse, error) {
 	if req.MessageId == nil {
 		return nil, status.Error(codes.InvalidArgument, "no message ID specified")
@@ -90,11 +100,19 @@ func (s *PublicrpcServer) GetSignedVAA(ctx context.Context, req *publicrpcv1.Get
 	if err != nil {
 		return nil, err
 	}
+	emitterChain, err := toChainID(req.MessageId.EmitterChain)
+	if err != nil {
+		return nil, err
+	}
+	targetChain, err := toChainID(req.MessageId.TargetChain)
+	if err != nil {
+		return nil, err
+	}
 
 	b, err := s.db.GetSignedVAABytes(vaa.VAAID{
-		EmitterChain:   vaa.ChainID(req.MessageId.EmitterChain.Number()),
+		EmitterChain:   emitterChain,
 		EmitterAddress: *emitterAddress,
-		TargetChain:    vaa.ChainID(req.MessageId.TargetChain.Number()),
+		TargetChain:    targetChain,
 		Sequence:       req.MessageId.Sequence,
 	})
 
@@ -127,13 +145,21 @@ func (s *PublicrpcServer) GetNonGovernanceVAABatch(ctx context.Context, req *pub
 	if err != nil {
 		return nil, err
 	}
+	emitterChain, err := toChainID(req.EmitterChain)
+	if err != nil {
+		return nil, err
+	}
+	targetChain, err := toChainID(req.TargetChain)
+	if err != nil {
+		return nil, err
+	}
 
 	entries := make([]*publicrpcv1.GetNonGovernanceVAABatchResponse_Entry, 0)
 	for _, sequence := range req.Sequences {
 		b, err := s.db.GetSignedVAABytes(vaa.VAAID{
-			EmitterChain:   vaa.ChainID(req.EmitterChain.Number()),
+			EmitterChain:   emitterChain,
 			EmitterAddress: *emitterAddress,
-			TargetChain:    vaa.ChainID(req.TargetChain.Number()),
+			TargetChain:    targetChain,
 			Sequence:       sequence,
 		})
 		if err != nil {
